@@ -1,7 +1,7 @@
 (** Proofs about the cleaning statements of SQLDataHolder (model: Store/Clean.v) and about the
     effect of cleaning on the streamed OTel events (model: Store/Stream.v).  Property C11. *)
 From Coq Require Import ZArith List Bool Lia.
-From V Require Import Store.Rel Store.Clean Store.Stream.
+From V Require Import Store.Rel Store.Clean Store.Stream Store.Ingest.
 Import ListNotations.
 Open Scope Z_scope.
 
@@ -166,10 +166,12 @@ Qed.
 Theorem deletions_are_sublists :
   (forall st,
       db (rm_inconsistent st) = filter (fun n => negb (memp (njob n) (bad_jobs st))) (db st)
-      /\ assoc (rm_inconsistent st) = assoc st /\ hashes (rm_inconsistent st) = hashes st)
+      /\ assoc (rm_inconsistent st) = prune_assoc (db (rm_inconsistent st)) (assoc st)
+      /\ hashes (rm_inconsistent st) = hashes st)
   /\ (forall w st,
       db (rm_outside w st) = filter (fun n => memp (njob n) (window_jobs w st)) (db st)
-      /\ assoc (rm_outside w st) = assoc st /\ hashes (rm_outside w st) = hashes st)
+      /\ assoc (rm_outside w st) = prune_assoc (db (rm_outside w st)) (assoc st)
+      /\ hashes (rm_outside w st) = hashes st)
   /\ (forall st n n', In n (db st) -> In n' (db st) -> njob n = njob n' ->
         (In n (db (rm_inconsistent st)) <-> In n' (db (rm_inconsistent st))))
   /\ (forall w st n n', In n (db st) -> In n' (db st) -> njob n = njob n' ->
@@ -440,7 +442,10 @@ Proof.
     apply restrict_kept_db.
 Qed.
 
-Lemma assoc_clean w st : assoc (clean w st) = assoc st.
+Lemma assoc_clean w st :
+  assoc (clean w st)
+  = prune_assoc (db (rm_outside w (rm_inconsistent st)))
+      (prune_assoc (db (rm_inconsistent st)) (assoc st)).
 Proof. reflexivity. Qed.
 
 Lemma ids_clean w st : ids (db (clean w st)) = ids (db (restrict (kept_jobs w st) st)).
@@ -449,11 +454,32 @@ Proof.
   intros n. apply renamed_nid.
 Qed.
 
+Lemma ids_clean_mid w st : ids (db (clean w st)) = ids (db (rm_outside w (rm_inconsistent st))).
+Proof.
+  rewrite clean_db. unfold ids. rewrite map_map. apply map_ext. intros n. apply renamed_nid.
+Qed.
+
+(** the pruned association rows are invisible to NodeModel.children: the child lists of the cleaned
+    store can be read off the ORIGINAL association table *)
+Lemma children_clean_raw w st n :
+  children (clean w st) n
+  = map snd (filter (fun k => Pos.eqb (fst k) (nid n) && memp (snd k) (ids (db (clean w st))))
+               (assoc st)).
+Proof.
+  unfold children. rewrite assoc_clean. unfold prune_assoc. f_equal.
+  rewrite filter_absorb, filter_absorb; auto.
+  - intros k Hk. apply andb_true_iff in Hk as [_ Hk]. rewrite ids_clean_mid in Hk.
+    apply memp_In. apply memp_In in Hk. unfold ids in *.
+    apply in_map_iff in Hk as [m [Hid Hm]]. apply window_exact in Hm as [Hm _].
+    apply in_map_iff. exists m. auto.
+  - intros k Hk. apply andb_true_iff in Hk as [_ Hk]. rewrite ids_clean_mid in Hk. exact Hk.
+Qed.
+
 Lemma children_clean_restrict w st :
   TraceClosed st -> NoDup (ids (db st)) ->
   forall n, children (clean w (restrict (kept_jobs w st) st)) n = children (clean w st) n.
 Proof.
-  intros Htc Hnd n. unfold children. rewrite (clean_restrict_db w st Htc), !assoc_clean.
+  intros Htc Hnd n. rewrite !children_clean_raw. rewrite (clean_restrict_db w st Htc).
   unfold restrict at 1; cbn [assoc]. f_equal. apply filter_absorb.
   intros k Hk. apply andb_true_iff in Hk as [_ Hk]. rewrite ids_clean in Hk.
   apply memp_In in Hk. unfold restrict in Hk; cbn [db] in Hk. unfold ids in Hk.
@@ -533,6 +559,108 @@ Proof.
     apply Hn. right; left; reflexivity.
   - split; [vm_compute; reflexivity | vm_compute; discriminate].
 Qed.
+
+(* ------------------------------------------------------------------------------------------ *)
+(** * 6b. No stale association rows after cleaning; the repair does not change the output *)
+
+Theorem clean_no_stale w st :
+  forall p c, In (p, c) (assoc (clean w st)) -> In c (ids (db (clean w st))).
+Proof.
+  intros p c H. rewrite assoc_clean in H. unfold prune_assoc at 1 in H.
+  apply filter_In in H as [_ H]. cbn [snd] in H. apply memp_In in H.
+  rewrite ids_clean_mid. exact H.
+Qed.
+
+Lemma nodupb_complete l : NoDup l -> nodupb l = true.
+Proof.
+  induction 1 as [|x r Hx Hr IH]; cbn [nodupb]; auto.
+  rewrite IH, andb_true_r. apply negb_true_iff, memp_false. exact Hx.
+Qed.
+
+Lemma pair_eqb_eq a b : pair_eqb a b = true <-> a = b.
+Proof.
+  unfold pair_eqb. rewrite andb_true_iff, !Pos.eqb_eq. destruct a, b; cbn [fst snd].
+  split; [intros [-> ->]; reflexivity | intros E; injection E; auto].
+Qed.
+
+Lemma mempair_In k l : mempair k l = true <-> In k l.
+Proof.
+  induction l as [|x r IH]; cbn [mempair In].
+  - split; [discriminate | intros []].
+  - rewrite orb_true_iff, pair_eqb_eq, IH. split; intros [H|H]; auto.
+Qed.
+
+Lemma nodup_pairb_iff l : nodup_pairb l = true <-> NoDup l.
+Proof.
+  induction l as [|x r IH]; cbn [nodup_pairb].
+  - split; [constructor | reflexivity].
+  - rewrite andb_true_iff, negb_true_iff, IH. split.
+    + intros [H1 H2]. constructor; auto. intros Hin. apply mempair_In in Hin. congruence.
+    + intros H. inversion H as [|? ? Hx Hr]; subst. split; auto.
+      destruct (mempair x r) eqn:E; auto. apply mempair_In in E. contradiction.
+Qed.
+
+Lemma NoDup_filter' {A} (f : A -> bool) l : NoDup l -> NoDup (filter f l).
+Proof.
+  induction 1 as [|x r Hx Hr IH]; cbn [filter]; [constructor|].
+  destruct (f x); auto. constructor; auto. intros Hin. apply filter_In in Hin as [Hin _]. auto.
+Qed.
+
+Lemma NoDup_map_filter {A B} (f : A -> B) (g : A -> bool) l :
+  NoDup (map f l) -> NoDup (map f (filter g l)).
+Proof.
+  induction l as [|x r IH]; cbn [map filter]; intros H; [constructor|].
+  inversion H as [|? ? Hx Hr]; subst. destruct (g x); cbn [map]; auto.
+  constructor; auto. intros Hin. apply Hx. apply in_map_iff in Hin as [y [Hy Hin]].
+  apply filter_In in Hin as [Hin _]. rewrite <- Hy. apply in_map. exact Hin.
+Qed.
+
+(** cleaning re-establishes (and preserves) the store invariant of Ingest: unique event ids, unique
+    association rows, every association child stored.  The third conjunct holds after cleaning
+    whatever the input was. *)
+Theorem clean_inv_b_strong w st :
+  nodupb (ids (db st)) = true -> nodup_pairb (assoc st) = true -> inv_b (clean w st) = true.
+Proof.
+  intros Hn Ha. unfold inv_b. rewrite !andb_true_iff. split; [split|].
+  - apply nodupb_complete. rewrite ids_clean_mid. unfold ids, rm_outside, rm_inconsistent; cbn [db].
+    apply NoDup_map_filter, NoDup_map_filter. apply nodupb_sound. exact Hn.
+  - apply nodup_pairb_iff. rewrite assoc_clean. unfold prune_assoc.
+    apply NoDup_filter', NoDup_filter'. apply nodup_pairb_iff. exact Ha.
+  - apply forallb_forall. intros [p c] Hk. cbn [snd]. apply memp_In.
+    apply (clean_no_stale w st p c Hk).
+Qed.
+
+Theorem clean_inv_b w st : inv_b st = true -> inv_b (clean w st) = true.
+Proof.
+  unfold inv_b at 1. rewrite !andb_true_iff. intros [[Hn Ha] _].
+  apply clean_inv_b_strong; assumption.
+Qed.
+
+(** The nodes table and the streamed events of the repaired cleaning are those of the pinned
+    tree's cleaning: the repair only removes association rows that stream_data never sees. *)
+Theorem clean_v0_same_output w st :
+  db (clean w st) = db (clean_v0 w st)
+  /\ forall fm fn, stream fm fn (clean w st) = stream fm fn (clean_v0 w st).
+Proof.
+  split; [reflexivity|]. intros fm fn. unfold stream.
+  change (rows fm fn (clean_v0 w st)) with (rows fm fn (clean w st)).
+  apply stream_of_rows_ext. intros n. rewrite children_clean_raw. reflexivity.
+Qed.
+
+(** On the pinned tree the cleaning left the association rows of the deleted nodes behind: trace 2
+    (spans 2 and 3, row (2,3)) lies outside the window and is deleted, its association row stays,
+    so the store no longer satisfies [inv_b]; the repaired cleaning removes the row. *)
+Example clean_v0_leaves_stale :
+  let st := mkstore [mknode 1 None 1 1 1 12 13 1; mknode 2 None 2 1 1 1 2 1;
+                     mknode 3 (Some 2%positive) 2 1 1 1 2 1]
+                    [(2, 3)%positive] [] in
+  inv_b st = true
+  /\ ids (db (clean_v0 (10, 20) st)) = [1%positive]
+  /\ assoc (clean_v0 (10, 20) st) = [(2, 3)%positive]
+  /\ inv_b (clean_v0 (10, 20) st) = false
+  /\ assoc (clean (10, 20) st) = []
+  /\ inv_b (clean (10, 20) st) = true.
+Proof. vm_compute. repeat split. Qed.
 
 (* ------------------------------------------------------------------------------------------ *)
 (** * 7. get_time_window and the timestamp trackers *)
